@@ -50,6 +50,13 @@ func (ial *IndentAwareLexer) checkNextToken() {
 func (ial *IndentAwareLexer) handleNewLineToken(currentToken antlr.Token) {
 	ial.pendingTokens.Enqueue(currentToken)
 
+	// a blank line, a whitespace-only line or a comment-only line has no indentation level of its own:
+	// it must neither open nor close a block, whatever whitespace it holds
+	input := ial.GetInputStream()
+	if next := input.LA(1); next == '\n' || next == '\r' || (next == '/' && input.LA(2) == '/') {
+		return
+	}
+
 	currentIndentationLength := ial.getLengthOfNewlineToken(currentToken)
 
 	previousIndent := 0
